@@ -12,8 +12,10 @@
   white-space separated words, each with the result of `toDouble` (`none` = not a number).
 
   `dimCheck` : whether `finish_obs` / `finish_hdiffs` compare `idim` with the number of
-  observations of the cluster.  The code at /repo HEAD does NOT (`dimCheck = false`, finding F9);
-  `dimCheck = true` is the code after notes/proposed/C10-covmat-dim-check.diff.
+  observations of the cluster.  The code does since /repo 410fb36 (`dimCheck = true`, `finishObs`,
+  `finishHdiffs` below); `dimCheck = false` is the code before that fix (finding F9, kept so that
+  the regression witness in corpus/C10 can still be stated).  tools/props/c10.py reads the guard
+  from the source on every run and fails the tie if it is gone.
 -/
 import Gama.Model.Packed
 import Gama.Model.ActiveCov
@@ -133,6 +135,14 @@ def finishObsWith (dimCheck isObs checkCov : Bool) (s : St K) (sigma : List (K Ã
     if checkThrows isObs sigma cov then (s1.error .NotPD, cov)
     else (s1, if isObs then scaledCov sigma cov else cov)
   else (s1, cov)
+
+/-- `GKFparser::finish_obs` as coded (since 410fb36) -/
+def finishObs (checkCov : Bool) (s : St K) (sigma : List (K Ã— Bool)) : St K Ã— CovMat K :=
+  finishObsWith true true checkCov s sigma
+
+/-- `GKFparser::finish_hdiffs` as coded (since 410fb36) -/
+def finishHdiffs (checkCov : Bool) (s : St K) (sigma : List (K Ã— Bool)) : St K Ã— CovMat K :=
+  finishObsWith true false checkCov s sigma
 
 /-- `GKFparser::finish_coords` / `finish_vectors` (`nobs = observation_list.size()`) -/
 def finishCoords (checkCov : Bool) (s : St K) (nobs : Nat) : St K Ã— CovMat K :=
